@@ -8,7 +8,9 @@ CHECK = dict(
           'durable operation of a flush (each meta file write incl. torn prefixes 0 / half / len-1, each '
           'history / UTXO batch commit, each direct put), at any durable operation (block file writes, '
           'removals) or during the restart\'s own clean-up; history-only and full flushes at '
-          'scheduler-chosen instants; the restarted server can be killed again. Oracle at reopen: the '
+          'scheduler-chosen instants; the restarted server can be killed again; in 15 % of the crash slots the '
+          'process instead dies of a disk-full error (ENOSPC at one durable operation, nothing of it applied) '
+          'through its own exception / shutdown path. Oracle at reopen: the '
           'databases open, the stored height equals the height of the last UTXO batch that was applied '
           'before the crash, and every observable equals RefIndex(chain to that height); after resuming, '
           'the final state equals RefIndex(final chain) (= the uninterrupted run). quick samples crash '
